@@ -76,4 +76,16 @@ CHECKS = {
   'note': 'Trusted: Coq kernel + vm_compute; Python partition/translation; harness; named sets (Unicode tables) are observed oracles, not verified; regex_syntax parser outside the model.',
   'technique': 'Rocq proof (structural induction over the class AST) + exhaustive per-class sweep of all scalar values',
  },
+ 'C15': {
+  'text': 'Coq theorems over the AST mirror and a Gallina transcription of Nfa::try_from_ast with every panic site explicit: the construction never panics (invariant: ids are indices, out-degree <= 2, end state has no outgoing edge), an unsupported construct (flags, assertion, non-greedy repetition, flagged group) at ANY depth of any pattern or lookahead of any mode, a syntax error, or an unknown/valued Unicode class at any nesting depth makes the build outcome Rejected, and configurations made only of supported constructs build; the Unicode name table is regenerated from match_function.rs on every run. Tied to the code by comparing, for token-level random strings and structured patterns with one planted unsupported construct in any position of any mode or lookahead, the outcome of build() and build_uncached() (under catch_unwind) with the model outcome on the AST the crate itself parsed, and the model NFA with the real NFA state by state. Covered by proved models: Nfa::try_from_ast, the minimizer (C03), the class-table decision; multi_pattern_nfa.rs, the closure construction and resource exhaustion are observed only.',
+  'design_ref': 'DESIGN.md section 7, C15',
+  'note': 'Trusted: Coq kernel + vm_compute; regex_syntax parser (string -> AST) is outside the model; translator of the Unicode name table; harness/hooks. Resource exhaustion (huge repetition counts, > 2^32 states) excluded.',
+  'technique': 'Rocq proof (invariant of the Thompson construction; structural induction over the AST) + differential on build outcomes and NFA dumps',
+ },
+ 'C18': {
+  'text': 'Coq theorem C18_render_faithful: for every well-formed automaton with lookaheads and every label-safe class text, extracting the graph (nodes, accepting labels with token type, edges with class id, clusters with token type and polarity) from the rendered DOT text gives back exactly the automaton; one file per mode with injective names. Tied to the code by feeding the REAL files written by generate_compiled_automata_as_dot to the verified extractor inside Coq and comparing with the dumped automaton (clusters as a set), for generated configurations incl. labels needing escapes and mode names with quotes/newlines; fault part (missing folder, path below a file, unwritable file system) observed: Err, never a panic.',
+  'design_ref': 'DESIGN.md section 7, C18',
+  'note': 'Trusted: Coq kernel + vm_compute; dot_writer text layout and the file system are modelled/observed; Python translation of files to Coq terms; hooks. Non-UTF-8 target paths are out of scope (to_str().unwrap()); read-only directories cannot be exercised as root.',
+  'technique': 'Rocq proof (printer/extractor round trip) + extraction of the real files inside Coq + fault enumeration',
+ },
 }
